@@ -53,7 +53,8 @@ META["C16"] = dict(
     level_text="Exhaustive runtime check of the real DirectedGraph on every digraph with <=4 nodes incl. self-loops (quick) and "
     "5 nodes without self-loops (thorough), 3 edge-insertion orders each, judged by an independent cycle test and order "
     "validator (icontract postcondition + boundary check); plus generated acyclic link graphs over 2-4 class groups / subclass "
-    "arguments through real parsers with recording constructors (order, exactly-once, argument identity, cycle refusal).",
+    "arguments through real parsers with recording constructors (order, exactly-once, argument identity, cycle refusal); "
+    "30% of the components hold a class-typed parameter of their own, and links may target the parameters of that nested object.",
     level_note="Trusted: the independent graph oracle (30 lines) and the recording classes. End-to-end link graphs are sampled "
     "(random DAGs, declaration orders, name-prefix collisions, multi-source links, a failing instantiate before the judged one).",
     shards=g(4, 16),
@@ -64,6 +65,7 @@ META["C16"] = dict(
     "enumerated. Part B: a case is (component kinds, DAG, declaration order, link specs), distinct by that tuple; every case "
     "has >=1 link so all are non-trivial.",
     gates={
+        "st.e2e.holder_components": g(100, 1000), "st.e2e.links_to_nested_target": g(40, 400),
         "mon.graph.evaluations": g(150000, 2000000),
         "ev.graph.cyclic_reported": g(50000, 500000),
         "ev.graph.ordered": g(1000, 10000),
